@@ -3,6 +3,7 @@ module verif
 go 1.23
 
 require (
+	github.com/anishathalye/porcupine v1.3.0
 	github.com/goatcms/goatcore v0.0.0-00010101000000-000000000000
 	golang.org/x/tools v0.29.0
 )
